@@ -156,6 +156,9 @@ def kind_c(report, tier):
 
     counter = EntryCounter()
     install_entry_probe(counter)
+    from tensora.compile._porcelain import cachable_tensor_method
+
+    cachable_tensor_method.cache_clear()  # methods built before the probe was installed are not observed
     doc = documented_problem_errors()
     evals = nontrivial = 0
     shown = 0
@@ -349,9 +352,12 @@ def check(argv):
     tier, seed = env_tier_seed(argv)
     report = Report("C10", tier, seed, "other", f"./vt check C10 --tier {tier}")
     report.guarded("dimension-loop obligation", kind_a, report)
+    from contracts import tensor_method
+
+    report.guarded("TensorMethod.__call__ symbolic execution", tensor_method.run, report)
     kind_c(report, tier)
     report.assumptions = ["kernel entry is observed by wrapping TensorMethod._evaluate (instrumentation in the checking process, no repository change)"]
-    return report.finish(explanation="Kind A: the dimension-consistency loop of TensorMethod.__call__ (extracted from the real source each run) completes iff all participants of an "
+    return report.finish(explanation="Kind B (per problem, all argument values): TensorMethod.__call__ is symbolically executed from its real source with every argument an arbitrary object and the participant sets iterated in every order; the kernel stub is entered only when every argument is a Tensor of the generated order/modes/ordering and all dimensions sharing an index agree; only TypeError/ValueError escape before it; allocate, kernel, take_ownership happen once each in that order. Kind A: the dimension-consistency loop of TensorMethod.__call__ (extracted from the real source each run) completes iff all participants of an "
                          "index have equal size, for every number of participants and every iteration order of the participant set; validation precedes the kernel call and "
                          "ownership is taken before the return-code test. Kind C: every single-argument inconsistency on a family of assignments through both entry points.")
 
